@@ -1149,6 +1149,16 @@ var c15Witnesses = map[string][]string{
 		"mkstream 1000,0 1:1 NOW 2 3",
 		"begin 3601", "end", "begin 3601", "end", "begin 3601", "end", "begin 3601", "end",
 	},
+	// F8 while the over-distributed stream is still active: GetModuleToDistributeCoins panics (Coins.Sub negative)
+	"f8-invariant-panics": {
+		"begin 1", "end",
+		"mkgauge 0 1 0 1 0,0 NOW 1", "mkgauge 0 1 0 1 0,0 NOW 1", "mkgauge 0 1 0 1 0,0 NOW 1",
+		"mkgauge 0 1 0 1 0,0 NOW 1", "mkgauge 0 1 0 1 0,0 NOW 1", "mkgauge 0 1 0 1 0,0 NOW 1",
+		"lock 1 0 100 3600",
+		"fund 100 6000000000000001000,0",
+		"mkstream 6000000000000000000,0 1:1,2:1,3:1,4:1,5:1,6:1 NOW 1 2",
+		"begin 3601", "end", "begin 3601", "end", "begin 10", "mkstream 5,0 1:1 NOW 1 2", "end",
+	},
 	// the active-stream list is not kept sorted by id but is bisected by id: with limit 1 the pointer is lost
 	"unsorted-active-streams": {
 		"maxiter 1",
